@@ -43,6 +43,9 @@ CLAIMED = {
  "C10": dict(technique="property-based differential testing against independent PROV-JSON and PROV-XML readers written from the specifications, plus structural validity predicates",
              text="The texts emitted for C01's and C02's generated documents (and both enumerated cores) are checked against structural rules of PROV-JSON / PROV-XML and read by independent readers with their own tables (statement names, formal keys, subtype elements, prefix scoping); the recovered content must equal the document's strict canonical content, so a symmetric writer/reader mistake or a renamed key is a violation even though the library's own round trip stays green.",
              note="Trusted: pbt/readers/provjson.py and provxml.py (stdlib json / xml.etree only). Ambiguous bundle-identifier scope is not judged (counted).", ref="4 C10"),
+ "C07": dict(technique="property-based round trip inside a constructively generated PROV-O-expressible subspace + exhaustively enumerated relation kind x argument mask x identified x attribute-class core; set-based oracle against unified()",
+             text="Documents are constructed so that every clause of the statement's quantifier holds (a post-pass drops or adjusts records that would violate one, with counters); they are written as TriG and read back; any exception is a violation, and per container the set of strict canonical records must equal that of unified(). The relation matrix (15 kinds x optional masks x identified x 5 attribute classes) and element x value kind x slot matrix are enumerated in every run.",
+             note="Trusted: unified() (decided by C08), rdflib's TriG writer/parser; blank-node labels are pinned by the harness so that a case has one outcome. One open known finding (F-C07-1) is excluded by construction.", ref="4 C07"),
 }
 PENDING_REASON = "check not built yet in this round (design in DESIGN.md section 4); not claimed until the check exists and is quiet on the unchanged tree"
 checks = []
